@@ -100,6 +100,8 @@ def run(ctx):
     # ---- correspondence
     tot = mism_tot = distinct = 0
     kinds = {}
+    thm = {}      # per function: cases on which the hypotheses of C14_stream_bytes / C14_sample_bytes held
+    thm_bad = 0   # ... and the theorem's right-hand side differed from what the Go code returned
     first_mism = None
     for (n, plen, bgs) in _batches(ctx):
         rc, cases, e = sh2([exe, "corr", "-seed", str(ctx.seed), "-n", str(n), "-plen", str(plen), "-bgs", bgs],
@@ -114,13 +116,22 @@ def run(ctx):
         tot += len(lines)
         mism_tot += len(mism)
         seen = set()
+        fn_of = {}
         for l in lines:
             p = l.split("\t")
             kinds[p[2]] = kinds.get(p[2], 0) + 1
+            fn_of[p[1]] = p[2]
             # non-trivial: non-empty input
             if p[4] != "-":
                 seen.add(hash((p[2], p[3], p[4])))
         distinct += len(seen)
+        for l in res:
+            w = l.split(" ")
+            if w[0] == "OK" and len(w) > 2 and w[2] == "T":
+                f = fn_of.get(w[1], "?")
+                thm[f] = thm.get(f, 0) + 1
+            elif w[0] == "THM-MISMATCH":
+                thm_bad += 1
         if mism and first_mism is None:
             by_id = {l.split("\t")[1]: l for l in lines}
             first_mism = (by_id.get(mism[0].split(" ")[1], "")[:2000], mism[0][:2000])
@@ -131,7 +142,18 @@ def run(ctx):
     ctx.cov["distinct_nontrivial"] += distinct
     ctx.notes["correspondence"] = {"cases": tot, "mismatches": mism_tot, "distinct_cases": distinct,
                                    "batches": [list(b) for b in _batches(ctx)], "per_function": kinds}
-    ctx.log("correspondence: %d cases, %d mismatches" % (tot, mism_tot))
+    ctx.notes["theorem_hypotheses_on_run_inputs"] = {
+        "what": "the extracted recognisers wf_stream / wf_sample (+ fit_units, hevc_stream_units, hevc_units) evaluated on "
+                "the input of every correspondence case; where they hold, the right-hand side of C14_stream_bytes / "
+                "C14_sample_bytes (list functions of the units read from the bytes, not the function's model) was "
+                "compared with what the Go code returned",
+        "applied_and_confirmed": sum(thm.values()), "contradicted": thm_bad,
+        "of_cases": tot - kinds.get("hzb", 0), "per_function": dict(sorted(thm.items()))}
+    ctx.log("correspondence: %d cases, %d mismatches; theorem hypotheses held on %d cases (%d contradicted)"
+            % (tot, mism_tot, sum(thm.values()), thm_bad))
+    if tot and not thm:
+        raise common.CheckError("no correspondence case satisfied the hypotheses of C14_stream_bytes / C14_sample_bytes: "
+                                "the generators no longer produce well-formed streams / samples")
     # ---- search: the property itself on the implementation
     fails = []
     sev = 0
